@@ -16,12 +16,14 @@ Definition c0 : C := (0, 0).
 Definition c1 : C := (1, 0).
 Definition cre (x : C) : Q := fst x.
 Definition cim (x : C) : Q := snd x.
-Definition cadd (x y : C) : C := (cre x + cre y, cim x + cim y).
+(* results are kept in lowest terms (Qred is the identity up to ==): repeated products of float-valued inverses
+   would otherwise square their denominators at every step when the model is evaluated *)
+Definition cadd (x y : C) : C := (Qred (cre x + cre y), Qred (cim x + cim y)).
 Definition cneg (x : C) : C := (- cre x, - cim x).
 Definition csub (x y : C) : C := cadd x (cneg y).
-Definition cmul (x y : C) : C := (cre x * cre y - cim x * cim y, cre x * cim y + cim x * cre y).
+Definition cmul (x y : C) : C := (Qred (cre x * cre y - cim x * cim y), Qred (cre x * cim y + cim x * cre y)).
 Definition cnorm2 (x : C) : Q := cre x * cre x + cim x * cim x.
-Definition cinv (x : C) : C := (cre x / cnorm2 x, - cim x / cnorm2 x).
+Definition cinv (x : C) : C := (Qred (cre x / cnorm2 x), Qred (- cim x / cnorm2 x)).
 Definition cdiv (x y : C) : C := cmul x (cinv y).
 Definition cis_zero (x : C) : bool := Qeq_bool (cre x) 0 && Qeq_bool (cim x) 0.
 Definition ceqb (x y : C) : bool := Qeq_bool (cre x) (cre y) && Qeq_bool (cim x) (cim y).
